@@ -496,6 +496,27 @@ for direction in ('parallel', 'serial'):
             VIOLATED, DETAIL = True, f'cdm {direction}, {n_species} species, faint lines: min {out.min()}, total in {frame.sum()}, total out {out.sum()}'
             break
     if VIOLATED: break
+# a hot pixel on a faint background / a bright block followed by faint pixels, applied three times: traps filled by the bright pixel meet faint ones
+for direction in ('parallel', 'serial'):
+    if VIOLATED: break
+    for n_species in (1, 2, 3):
+        if VIOLATED: break
+        for kind in ('hot on 1 e-', 'bright block then faint', 'hot on dark'):
+            det = VP.detector(rows=12, cols=12)
+            det.environment.temperature = 273.15
+            frame = np.zeros((12, 12)) if kind == 'hot on dark' else np.ones((12, 12))
+            if kind == 'bright block then faint': frame[2:5, 2:5] = 5e4; frame[5:, :] = 3.0
+            else: frame[4, 4] = 1e4
+            det.pixel.array = frame.copy(); total = frame.sum()
+            for rep in range(3):
+                cdm_model(detector=det, direction=direction, beta=0.3, trap_release_times=[5e-3, 6e-3, 7e-3][:n_species], trap_densities=[1e12] * n_species,
+                          sigma=[1e-15] * n_species, full_well_capacity=1e5, max_electron_volume=1e-10, transfer_period=1e-3, charge_injection=False)
+                out = np.array(det.pixel.array)
+                if out.min() < 0 or out.sum() > total * (1 + 1e-12) + 1e-9:
+                    VIOLATED, DETAIL = True, f'cdm {direction}, {n_species} species, {kind}, application {rep + 1}: min {out.min()}, charge in {total}, charge out {out.sum()}'
+                    break
+                total = out.sum()
+            if VIOLATED: break
 for fn in (run_cdm_parallel, run_cdm_serial):
     if VIOLATED: break
     for trial in range(20):
